@@ -25,7 +25,7 @@ func (o Profile1) GetClaims() IClaims {
 // P1Claims defines claims associated with profile "PSA_IOT_PROFILE_1".
 // See https://arm-software.github.io/psa-api/attestation/1.0/overview/report.html
 type P1Claims struct {
-	Profile                *string       `cbor:"-75000,keyasint,omitempty" json:"psa-profile"`
+	Profile                *string       `cbor:"-75000,keyasint,omitempty" json:"psa-profile,omitempty"`
 	ClientID               *int32        `cbor:"-75001,keyasint" json:"psa-client-id"`
 	SecurityLifeCycle      *uint16       `cbor:"-75002,keyasint" json:"psa-security-lifecycle"`
 	ImplID                 *[]byte       `cbor:"-75003,keyasint" json:"psa-implementation-id"`
